@@ -654,6 +654,22 @@ class CallMixin:
             return Const(not self.truthy(args[0], "operator.not_"))
         if q in ("functools.wraps", "functools.update_wrapper"):
             return RefV("builtins.__identity__")
+        if q in ("functools.reduce", "_functools.reduce") and len(args) in (2, 3) and not kwargs:
+            # left fold: acc = f(acc, item) for every item (abstract iterables: the loop abstraction of `for`)
+            f, it = args[0], self.resolve_alt(args[1])
+            box = {"acc": args[2] if len(args) == 3 else None}
+            if box["acc"] is None:
+                items = self.concrete_items(it)
+                if not items:
+                    self.event("extcall", func=func, args=args, kwargs={})
+                    return Sym("call", func, tuple(args), ())
+                box["acc"], it = items[0], PyList(items[1:])
+
+            def body(item):
+                box["acc"] = self.call_v(f, [box["acc"], item], {}, module, node, env)
+
+            self.iterate(it, body, module, node)
+            return box["acc"]
         if q == "dataclasses.fields" and len(args) == 1:
             n = self.resolve_alt(args[0])
             if isinstance(n, NodeV):
@@ -717,6 +733,16 @@ class CallMixin:
                      (m.startswith("builtins.") and m.endswith("Error")) for m in mro)
         if is_exc:
             self.event("new_exc", cls=q, args=args)
+            r = self.repo.lookup_method(q, "__init__")
+            if r is not None and getattr(self, "run_exc_ctors", False) and not getattr(self, "_in_exc_ctor", None) \
+                    and len(self.stack) < self.inline_depth + 3:
+                # building the exception runs its constructor: if that fails, the failure is what propagates
+                dummy = ObjV(q, {}, label=f"exc:{ci.name}")
+                self._in_exc_ctor = q
+                try:
+                    self.call_function(r[0].module, r[1], [dummy] + list(args), {k: v for k, v in kwargs.items() if k != "**"}, r[0].qual)
+                finally:
+                    self._in_exc_ctor = None
             return Sym("exc", RefV(q), tuple(args), _kw(kwargs))
         obj = ObjV(q, {}, label=f"new:{ci.name}")
         obj.init_args = (list(args), dict(kwargs))
@@ -763,6 +789,9 @@ class CallMixin:
             if isinstance(v, (NodeV, NewNode)):
                 self.may_raise("builtins.TypeError", f"len({_describe(v)})", definite=True)
                 raise _Raise(self.make_exc("builtins.TypeError"), self.cur_where)
+            if isinstance(v, Sym) and v.hint is None and v.op in ("visit", "call", "stubcall", "dispatch", "arg"):
+                # the result of a translation / an external call: not known to be sized
+                self.may_raise("builtins.TypeError", f"len({_describe(v)})")
             return Sym("len", v, hint="int")
         if name == "str":
             if not a:
